@@ -18,15 +18,20 @@ func runC01(a *A) {
 	a.Rule("ordtab/contains", 1, a.ruleContains)
 	a.Rule("ordtab/take-keep", 3, func() { // at least one cut per extracting method
 		W := a.Named("window", "TumblingWindow")
-		n := 0
-		for _, m := range []string{"extractWindowDataLocked", "Trigger", "extractLateUpdateDataLocked"} {
-			n += a.ruleTakeKeep(W, a.Method("window", "TumblingWindow", m), tkSpec{})
+		// every method of the window that cuts the buffer, wherever the cut sits (the extracting
+		// methods today; the watermark handler itself when the extraction is done in place)
+		for _, fn := range a.methodsOf(W) {
+			if a.hasTakeLoop(W, fn) {
+				a.ruleTakeKeep(W, fn, tkSpec{})
+			}
 		}
 	})
 	a.Rule("shape/slot-stamp", 2, func() {
 		W := a.Named("window", "TumblingWindow")
-		for _, m := range []string{"extractWindowDataLocked", "Trigger", "extractLateUpdateDataLocked"} {
-			a.ruleSlotStamp(W, a.Method("window", "TumblingWindow", m))
+		for _, fn := range a.methodsOf(W) {
+			if a.hasTakeLoop(W, fn) {
+				a.ruleSlotStamp(W, fn)
+			}
 		}
 	})
 	a.Rule("shape/slots-tile", 3, func() { a.tumblingSlotShapes("TumblingWindow", "size", "size") })
